@@ -47,8 +47,26 @@ def materialise(eng, st, v, M):
         lo, hi = eng.resolve(st, it.fields.get(0)), eng.resolve(st, it.fields.get(1))
         if isinstance(lo, K) and isinstance(hi, K) and hi.v - lo.v < 100000:
             return [K(i) for i in range(lo.v, hi.v)]
-    if isinstance(it, AggV) and it.kind == "bytes-takewhile":
-        return None
+    if isinstance(it, AggV) and it.kind == "bytes-split" and isinstance(it.fields.get(2), K) and not it.fields[2].v:
+        # slice::split(pred): pieces between the bytes for which the predicate holds (decided by folding the predicate)
+        data = list(it.fields[0].b)
+        off = it.fields[0].off
+        pieces, cur, start = [], [], 0
+        fr = st.frames[-1]
+        for i, b in enumerate(data):
+            res = eng.call_closure(st, fr, it.fields[1], [RefV(Cell(K(b), "item"))], None)
+            if len(res) != 1 or res[0][0] is not st:
+                return None
+            v = eng.resolve(st, res[0][1])
+            if not isinstance(v, K):
+                return None
+            if v.v:
+                pieces.append((start, cur))
+                cur, start = [], i + 1
+            else:
+                cur.append(b)
+        pieces.append((start, cur))
+        return [M._mkslice(p, None if off is None else off + s0) for s0, p in pieces]
     return None
 
 
